@@ -36,6 +36,20 @@ use crate::{
 
 const NCODE: u8 = 6;
 
+/// Alphabet switch (set once at the start of a harness; constant-folded by CBMC):
+///   false: SIMPLE  keys [c], c in 0..3 (one one-byte component); prefixes [] and [c]
+///   true : MIXED   the six compound keys described above (keys that are prefixes of one another)
+static mut MIXED: bool = false;
+fn mixed() -> bool {
+    unsafe { MIXED }
+}
+fn set_mixed(m: bool) {
+    unsafe { MIXED = m }
+}
+fn ncode() -> u8 {
+    if mixed() { 6 } else { 3 }
+}
+
 fn bx(b: u8) -> Bytes {
     Box::new([b])
 }
@@ -48,6 +62,9 @@ fn shape(code: u8) -> (usize, u8, u8) {
 }
 
 fn mk_key(code: u8) -> Keys {
+    if !mixed() {
+        return Keys::from(vec![bx(code)]);
+    }
     let (n, a, b) = shape(code);
     if n == 1 {
         Keys::from(vec![bx(a)])
@@ -58,6 +75,12 @@ fn mk_key(code: u8) -> Keys {
 
 /// Inverse of `mk_key` for keys inside the alphabet.
 fn code_of(keys: &[Bytes]) -> Option<u8> {
+    if !mixed() {
+        if keys.len() != 1 || keys[0].len() != 1 || keys[0][0] > 2 {
+            return None;
+        }
+        return Some(keys[0][0]);
+    }
     if keys.is_empty() || keys.len() > 2 {
         return None;
     }
@@ -83,6 +106,9 @@ fn mk_prefix(p: u8) -> Keys {
 fn has_prefix(c: u8, p: u8) -> bool {
     if p == 0 {
         return true;
+    }
+    if !mixed() {
+        return c == p - 1;
     }
     let (pn, pa, pb) = shape(p - 1);
     let (cn, ca, cb) = shape(c);
@@ -180,7 +206,7 @@ fn any_base(n: usize) -> VFacts {
     while i < n {
         f.code[i] = kani::any();
         f.val[i] = kani::any();
-        kani::assume(f.code[i] < NCODE);
+        kani::assume(f.code[i] < ncode());
         if i > 0 {
             kani::assume(f.code[i - 1] < f.code[i]);
         }
@@ -366,7 +392,7 @@ fn any_script(n: usize) -> Script {
         s.del[i] = kani::any();
         s.code[i] = kani::any();
         s.val[i] = kani::any();
-        kani::assume(s.code[i] < NCODE);
+        kani::assume(s.code[i] < ncode());
         i += 1;
     }
     s
@@ -523,7 +549,7 @@ fn overlay(base: &Flat, lvl: &Level) -> Flat {
 
 fn any_code() -> u8 {
     let c: u8 = kani::any();
-    kani::assume(c < NCODE);
+    kani::assume(c < ncode());
     c
 }
 
@@ -661,7 +687,7 @@ fn check_exact<Q: Query>(p: &Q, m: &Flat) {
 /// missing, nothing deleted is emitted, nothing is emitted twice).
 fn check_prefix<Q: Query>(p: &Q, m: &Flat, max_items: usize) -> (usize, u8) {
     let pc: u8 = kani::any();
-    kani::assume(pc <= NCODE);
+    kani::assume(pc <= ncode());
     let pk = mk_prefix(pc);
     let mut it = match p.query_prefix("f", &pk) {
         Ok(it) => it,
@@ -755,27 +781,8 @@ fn overlay_case(nbase: usize, ncur: usize, prefix: bool) -> (usize, u8) {
     listed
 }
 
-#[kani::proof]
-#[kani::unwind(7)]
-fn c14_overlay_exact() {
-    overlay_case(3, 3, false);
-}
 
-#[kani::proof]
-#[kani::unwind(7)]
-fn c14_overlay_prefix_b2_c2() {
-    let (got, pc) = overlay_case(2, 2, true);
-    kani::cover!(got >= 2, "prefix query with two or more results");
-    kani::cover!((got >= 1) & (pc > 0), "non-trivial prefix with a result");
-}
 
-#[kani::proof]
-#[kani::unwind(7)]
-fn c14_overlay_prefix_b3_c3() {
-    let (got, pc) = overlay_case(3, 3, true);
-    kani::cover!(got >= 3, "prefix query with three or more results");
-    kani::cover!((got >= 2) & (pc > 0), "non-trivial prefix with two results");
-}
 
 // ------------------------------------------------------------------------------------------
 // C14 / C13: one write from any state
@@ -828,18 +835,7 @@ fn write_case(nbase: usize, ncur: usize, nlog: usize, prefix: bool) -> (usize, u
     listed
 }
 
-#[kani::proof]
-#[kani::unwind(7)]
-fn c14_write_step() {
-    write_case(2, 2, 1, false);
-}
 
-#[kani::proof]
-#[kani::unwind(7)]
-fn c14_write_step_prefix() {
-    let (got, _) = write_case(2, 1, 0, true);
-    kani::cover!(got >= 2, "prefix query with two or more results");
-}
 
 // ------------------------------------------------------------------------------------------
 // C13 (session half): revert(i) from any state
@@ -904,24 +900,8 @@ fn revert_case(nbase: usize, nlog: usize, ncur: usize, prefix: bool) -> (usize, 
     listed
 }
 
-#[kani::proof]
-#[kani::unwind(7)]
-fn c13_session_revert_step() {
-    revert_case(1, 2, 1, false);
-}
 
-#[kani::proof]
-#[kani::unwind(7)]
-fn c13_session_revert_step_full() {
-    revert_case(2, 3, 2, false);
-}
 
-#[kani::proof]
-#[kani::unwind(7)]
-fn c13_session_revert_step_prefix() {
-    let (got, _) = revert_case(2, 2, 1, true);
-    kani::cover!(got >= 2, "prefix query with two or more results");
-}
 
 // ------------------------------------------------------------------------------------------
 // C14: Session::action / Session::receive with a rule that may fail after writing
@@ -995,36 +975,10 @@ fn session_op_case(nbase: usize, nlog: usize, nscript: usize, receive: bool, pre
     listed
 }
 
-#[kani::proof]
-#[kani::unwind(7)]
-fn c14_action_step() {
-    session_op_case(1, 1, 1, false, false);
-}
 
-#[kani::proof]
-#[kani::unwind(7)]
-fn c14_action_step_full() {
-    session_op_case(2, 1, 2, false, false);
-}
 
-#[kani::proof]
-#[kani::unwind(7)]
-fn c14_receive_step() {
-    session_op_case(1, 1, 1, true, false);
-}
 
-#[kani::proof]
-#[kani::unwind(7)]
-fn c14_receive_step_full() {
-    session_op_case(2, 1, 2, true, false);
-}
 
-#[kani::proof]
-#[kani::unwind(7)]
-fn c14_action_step_prefix() {
-    let (got, _) = session_op_case(2, 1, 1, false, true);
-    kani::cover!(got >= 2, "prefix query with two or more results");
-}
 
 // ------------------------------------------------------------------------------------------
 // C13 (session half): direct history cross-check
@@ -1080,8 +1034,49 @@ fn session_history(n: usize, nbase: usize) {
     core::mem::forget(s);
 }
 
-#[kani::proof]
-#[kani::unwind(7)]
-fn c13_session_history3() {
-    session_history(3, 1);
+// ------------------------------------------------------------------------------------------
+// proof harnesses (sizes: see checks/C13.json, checks/C14.json)
+// ------------------------------------------------------------------------------------------
+macro_rules! harness {
+    ($name:ident, $mixed:expr, $body:expr) => {
+        #[kani::proof]
+        #[kani::unwind(7)]
+        fn $name() {
+            set_mixed($mixed);
+            let _ = $body;
+        }
+    };
+    ($name:ident, $mixed:expr, $body:expr, $min:expr, $text:expr) => {
+        #[kani::proof]
+        #[kani::unwind(7)]
+        fn $name() {
+            set_mixed($mixed);
+            let (got, _pc) = $body;
+            kani::cover!(got >= $min, $text);
+        }
+    };
 }
+
+// C14 overlay
+harness!(c14_overlay_exact, false, overlay_case(2, 2, false));
+harness!(c14_overlay_exact_full, false, overlay_case(3, 3, false));
+harness!(c14_overlay_exact_mixed, true, overlay_case(2, 2, false));
+harness!(c14_overlay_prefix, false, overlay_case(2, 2, true), 2, "prefix query with two or more results");
+harness!(c14_overlay_prefix_full, false, overlay_case(3, 3, true), 3, "prefix query with three results");
+harness!(c14_overlay_prefix_mixed, true, overlay_case(2, 2, true), 2, "prefix query with two or more results");
+// C14 writes
+harness!(c14_write_step, false, write_case(1, 1, 1, false));
+harness!(c14_write_step_full, false, write_case(2, 2, 1, false));
+harness!(c14_write_step_prefix, false, write_case(2, 1, 0, true), 2, "prefix query with two or more results");
+harness!(c14_write_step_mixed, true, write_case(1, 1, 0, false));
+// C13 session revert
+harness!(c13_session_revert_step, false, revert_case(1, 2, 1, false));
+harness!(c13_session_revert_step_full, false, revert_case(2, 3, 2, false));
+harness!(c13_session_revert_step_prefix, false, revert_case(2, 2, 1, true), 2, "prefix query with two or more results");
+harness!(c13_session_history3, false, session_history(3, 1));
+// C14 action / receive
+harness!(c14_action_step, false, session_op_case(1, 1, 1, false, false));
+harness!(c14_action_step_full, false, session_op_case(2, 1, 2, false, false));
+harness!(c14_action_step_prefix, false, session_op_case(2, 1, 1, false, true), 2, "prefix query with two or more results");
+harness!(c14_receive_step, false, session_op_case(1, 1, 1, true, false));
+harness!(c14_receive_step_full, false, session_op_case(2, 1, 2, true, false));
